@@ -244,6 +244,10 @@ func configs(tier string) []config {
 		Ops: cat(adds(two, []int64{1, 2, 0, -1}, []int64{ms}), builds([]int64{ms, -ms}, []int{icptMaxSize})), Depth: dI})
 	out = append(out, config{Name: "I-time", Mode: modeInterceptor, Starts: []int64{65534},
 		Ops: cat(adds(one, []int64{1, 0}, []int64{0, 500 * ms, 8 * sec, 64*sec + 500*ms}), builds([]int64{0, -ms, 500 * ms}, []int{icptMaxSize})), Depth: dI})
+	// clock readings that are not whole microseconds, around the rounding edge of the 1/1024 s unit and around
+	// the report instant itself
+	out = append(out, config{Name: "I-fine", Mode: modeInterceptor, Starts: []int64{65534},
+		Ops: cat(adds(one, []int64{1, 0}, []int64{0, 1, twoUnits - 1, ms + 999}), builds([]int64{0, -1, twoUnits - 1, 976563}, []int{icptMaxSize})), Depth: dI})
 	return out
 }
 
